@@ -137,6 +137,9 @@ fn module_variants(m: &Module) -> Vec<Module> {
 pub fn shrink(m: &Module, class: &str, still_fails: &mut dyn FnMut(&Module) -> Option<String>, budget: usize) -> Module {
     let mut cur = m.clone();
     let mut used = 0usize;
+    // safety net for cases whose evaluation is slow (a panicking compiler costs ~0.2 s per
+    // evaluation): the shrink stops after 3 s of wall time with what it has
+    let started = std::time::Instant::now();
     loop {
         let mut progressed = false;
         let size = cur.size() + cur.functions.len() + cur.submodules.len() + cur.imports.len();
@@ -146,7 +149,7 @@ pub fn shrink(m: &Module, class: &str, still_fails: &mut dyn FnMut(&Module) -> O
                 continue;
             }
             used += 1;
-            if used > budget {
+            if used > budget || started.elapsed().as_secs() >= 3 {
                 return cur;
             }
             if still_fails(&v).as_deref() == Some(class) {
